@@ -405,6 +405,102 @@ def folder_cache_updated(cls: ast.ClassDef) -> bool:
     return False
 
 
+def space_built_incrementally(cls: ast.ClassDef) -> bool:
+    """does the `space` property add keys to an EXISTING gymnasium `Dict` (`x = spaces.Dict(…)` … `x[k] = …` / `x[k][j] = …`)?  Such keys
+    are appended in insertion order; a complete Python dict handed to `spaces.Dict(…)` is sorted by gymnasium."""
+    fn = _prop(cls, "space")
+    gym_names = {n.targets[0].id for n in ast.walk(fn) if isinstance(n, ast.Assign) and len(n.targets) == 1 and isinstance(n.targets[0], ast.Name)
+                 and isinstance(n.value, ast.Call) and ast.unparse(n.value.func).endswith("spaces.Dict")}
+    for n in ast.walk(fn):
+        if isinstance(n, (ast.Assign, ast.AugAssign)):
+            for t in (n.targets if isinstance(n, ast.Assign) else [n.target]):
+                root = t
+                while isinstance(root, ast.Subscript):
+                    root = root.value
+                if isinstance(t, ast.Subscript) and isinstance(root, ast.Name) and root.id in gym_names:
+                    return True
+        if isinstance(n, ast.Call) and isinstance(n.func, ast.Attribute) and n.func.attr in ("update", "setdefault") \
+                and isinstance(n.func.value, ast.Name) and n.func.value.id in gym_names:
+            return True
+    return False
+
+
+def nmne_table(fn: ast.FunctionDef) -> List[Tuple[bool, bool, bool, bool, bool]]:
+    """What `NICObservation.observe` does about NMNE, by CASES instead of by source text: for each value of (`self.include_nmne`,
+    `'nmne' in nic_state`) the statements of the live branch are walked, every `if` whose test is a boolean combination of these two
+    facts (directly or through a local assigned from one of them) is decided, and it is recorded whether the interface's counters are
+    read (`nic_state['nmne']`), whether a FRESH `NMNE` dictionary is put into the observation before that, and whether explicit zeros
+    are reported.  An `if` on anything else must not contain NMNE statements (raises).  Rows: (include, capturing, reads, fresh, zeros)."""
+    def is_zero_dict(d: ast.AST) -> bool:
+        return isinstance(d, ast.Dict) and sorted(ast.unparse(k) for k in d.keys) == ["'inbound'", "'outbound'"] and \
+            all(isinstance(v, ast.Constant) and v.value == 0 for v in d.values)
+
+    def nmne_write(st: ast.stmt):
+        """'fresh' / 'zeros' / None for `obs.update({'NMNE': …})` and `obs['NMNE'] = …`"""
+        val = None
+        if isinstance(st, ast.Expr) and isinstance(st.value, ast.Call) and ast.unparse(st.value.func) == "obs.update" and len(st.value.args) == 1 \
+                and isinstance(st.value.args[0], ast.Dict) and [ast.unparse(k) for k in st.value.args[0].keys] == ["'NMNE'"]:
+            val = st.value.args[0].values[0]
+        elif isinstance(st, ast.Assign) and len(st.targets) == 1 and ast.unparse(st.targets[0]) == "obs['NMNE']":
+            val = st.value
+        if val is None:
+            return None
+        if isinstance(val, ast.Dict) and not val.keys:
+            return "fresh"
+        if is_zero_dict(val):
+            return "zeros"
+        raise ValueError("NICObservation.observe: NMNE written with something else: " + ast.unparse(st))
+
+    def ev(e: ast.AST, env: dict):
+        u = ast.unparse(e)
+        if u in env:
+            return env[u]
+        if isinstance(e, ast.BoolOp):
+            vals = [ev(v, env) for v in e.values]
+            if any(v is None for v in vals):
+                return None
+            return all(vals) if isinstance(e.op, ast.And) else any(vals)
+        if isinstance(e, ast.UnaryOp) and isinstance(e.op, ast.Not):
+            v = ev(e.operand, env)
+            return None if v is None else (not v)
+        return None
+
+    def walk(stmts, env: dict, acc: dict):
+        for st in stmts:
+            if isinstance(st, ast.Assign) and len(st.targets) == 1 and isinstance(st.targets[0], ast.Name):
+                v = ev(st.value, env)
+                if v is not None:
+                    env[st.targets[0].id] = v
+                    continue
+            if isinstance(st, ast.If):
+                v = ev(st.test, env)
+                if v is None:
+                    if "NMNE" in ast.unparse(st) or "nic_state['nmne']" in ast.unparse(st):
+                        raise ValueError("NICObservation.observe: NMNE statements under a test that is not about include_nmne / capturing: " + ast.unparse(st.test))
+                    continue
+                walk(st.body if v else st.orelse, env, acc)
+                continue
+            w = nmne_write(st)
+            if w == "fresh":
+                acc["fresh"] = True
+            elif w == "zeros":
+                acc["zeros"] = True
+            elif "nic_state['nmne']" in ast.unparse(st):
+                acc["reads"] = True
+                acc["fresh_before_read"] = acc["fresh"]
+            elif "obs['NMNE']" in ast.unparse(st) and not acc["fresh"]:
+                acc["writes_unfresh"] = True  # writes into an NMNE dictionary this call did not create
+
+    rows = []
+    live = [st for st in fn.body if not (isinstance(st, ast.If) and "NOT_PRESENT_IN_STATE" in ast.unparse(st.test))]
+    for inc in (True, False):
+        for cap in (True, False):
+            acc = {"reads": False, "fresh": False, "zeros": False, "fresh_before_read": False, "writes_unfresh": False}
+            walk(live, {"self.include_nmne": inc, "'nmne' in nic_state": cap}, acc)
+            rows.append((inc, cap, acc["reads"], (acc["fresh_before_read"] or not acc["reads"]) and not acc["writes_unfresh"], acc["zeros"]))
+    return rows
+
+
 def nmne_gate(fn: ast.FunctionDef) -> Tuple[bool, bool, str, bool]:
     """(there is a branch on `capture_nmne and self.include_nmne`, there is a branch emitting zeros on `self.include_nmne and not
     capture_nmne`, the expression the LOCAL `capture_nmne` is assigned from, observe still reads the class attribute `self.capture_nmne`)"""
@@ -512,6 +608,11 @@ def emit() -> str:
     out.append(f"def nmneCaptureBranch : Bool := {'true' if cap else 'false'}")
     out.append(f"def nmneDefaultWhenNotCapturing : Bool := {'true' if dflt else 'false'}")
     out.append('def nmneCaptureSource : String := "' + src.replace('"', "'") + '"')
+    B_ = lambda b: "true" if b else "false"  # noqa: E731
+    out.append("/-- NICObservation.observe by cases: (include_nmne, interface publishes `nmne`, counters read, NMNE dictionary created by this\n"
+               "call before anything is written into it, explicit zeros reported) -/")
+    out.append("def nmneTable : List (Bool × Bool × Bool × Bool × Bool) := ["
+               + ", ".join("(" + ", ".join(B_(x) for x in r) + ")" for r in nmne_table(find_method(cls["NICObservation"], "observe"))) + "]")
     out.append(f"def nmneObserveReadsClassAttribute : Bool := {'true' if reads else 'false'}")
     # how ACLObservation.observe reads slot i of the ACL's state (`.get(i)`: a position beyond the slots is None = empty; `[i]` would raise)
     reads_ = [ast.unparse(n.value) for n in ast.walk(find_method(cls["ACLObservation"], "observe"))
@@ -530,6 +631,8 @@ def emit() -> str:
         if any(v is None for v in vals):
             raise ValueError(f"default thresholds of {name} not literal")
         out.append(f"def {name}_defaultThresholds : Int × Int × Int := ({vals[0]}, {vals[1]}, {vals[2]})")
+    out.append("/-- the classes whose `space` adds keys to an existing gymnasium Dict (insertion order) instead of handing over a complete dict (sorted) -/")
+    out.append("def spaceBuiltIncrementally : List String := [" + ", ".join(f'"{n}"' for n in CLASSES if space_built_incrementally(cls[n])) + "]")
     # `_validate_thresholds`: translated statement by statement; the setters and the constructors' calls as tables
     vt = find_method(class_def(parse(D + "observations.py"), "AbstractObservation"), "_validate_thresholds")
     out.append(translate_validate_thresholds(vt))
